@@ -33,6 +33,10 @@ func genCase(t *rapid.T) Case {
 	return c
 }
 
+func genStorageCase(t *rapid.T) Case {
+	return Case{Excl: sk.CurrentExclusions(), Ops: sk.GenStorageOps(t, 40)}
+}
+
 // classify attributes a post-revert mismatch to a recorded root cause, by the exact
 // shape of the history (which operations the revert undid) and of the mismatch (which
 // observables differ). Anything else is "revert-mismatch".
@@ -237,4 +241,11 @@ var _ = kit.Register(kit.Prop[Case]{
 	Rule: "histories of up to ~75 operations on one StateDB over 6 accounts x 3 storage slots and 4 validators: account operations (balance, nonce, code, storage, suicide, re-creation, logs, refund, preimages, touch), validator operations replaying the staking callers (create, update, deposit, withdraw, status, delegation add/sub, rewards, settle, expel, recover, withdraw-queue removal), Snapshot, RevertToSnapshot of ANY live id, Finalise(true)/IntermediateRoot(true) as transaction boundaries, Commit with and without reopening; at every Snapshot Obs (all getters + the 3 roots and the address index of IntermediateRoot on a Copy) is recorded and must be equal after the revert; at the end the state and the roots of IntermediateRoot on the subject itself must equal those of the same history executed without snapshots and without the undone operations; non-trivial = reverts a non-innermost snapshot, or reverts in a transaction that is not the first of the state object, or the revert undoes a validator-journal entry; distinct = FNV-64 of the case JSON",
 	Gen:  genCase, Run: runCase,
 	Quick: 4000, Thorough: 25000, Chunk: 500, MinNonTrivialPct: 35,
+})
+
+var _ = kit.Register(kit.Prop[Case]{
+	Name: "StorageRevertAcrossTxs",
+	Rule: "same oracles as SnapshotRevert on histories concentrated on the storage journal across the transactions of one block: 2 contracts x 2 slots with a committed (mostly reopened) pre-state of non-zero slots, SSTOREs of values from {the slot's parent value, 0, 1, 2, 3}, nested snapshots and reverts of any live id, mostly Finalise-only transaction boundaries (IntermediateRoot / Commit rare), occasional self-destruct and re-creation; non-trivial = reverts a non-innermost snapshot or reverts in a transaction that is not the first of the state object; distinct = FNV-64 of the case JSON",
+	Gen:  genStorageCase, Run: runCase,
+	Quick: 3000, Thorough: 25000, Chunk: 500, MinNonTrivialPct: 35,
 })
